@@ -218,11 +218,14 @@ fn hint_src(ty: &Type) -> Option<String> {
     }
 }
 
-/// Does `ty` have `Any` or an error type anywhere inside it? Neither
-/// can be written as a type hint.
+/// Does `ty` have `Any`, an error type or `NoValue` anywhere inside
+/// it? `Any` and error types can't be written as a type hint, and
+/// `NoValue` is what the checker infers when it knows nothing yet
+/// (e.g. for a recursive call), so a hint with it rejects real values.
 fn contains_any_or_error(ty: &Type) -> bool {
     match ty {
         Type::Any | Type::Error { .. } => true,
+        _ if ty.is_no_value() => true,
         Type::Tuple(items) => items.iter().any(contains_any_or_error),
         Type::Fun {
             params, return_, ..
